@@ -139,7 +139,9 @@ impl Cylinder3D {
         let b = (dx * ox + dy * oy) * 2.;
         let c = ox * ox + oy * oy - self.radius * self.radius;
         let (t0, t1) = ApproxFloat::solve_quadratic(a, b, c)?;
-        debug_assert!(t1.as_float() >= t0.as_float());
+        // solve_quadratic orders the two enclosures by their lower bounds; their
+        // midpoints may come out in the other order when the enclosures overlap
+        debug_assert!(!(t1.low < t0.low));
         // t0 < t1... so, check if they are possitive
         if t1.low <= 0.0 {
             return None;
